@@ -25,7 +25,7 @@
 (* stop) is published for the binding.                                          *)
 EXTENDS Integers, Sequences, TLC, Json, FiniteSets
 
-CONSTANTS Types, Steps, GridOnly, Dump, Cap
+CONSTANTS Types, Steps, GridOnly, Dump
 
 Sent == 99
 
@@ -115,10 +115,6 @@ LoopLimit(t, form, a, b, s) ==
   LET b2 == IF form = "fwd" THEN b ELSE a IN
   IF Special(t, form, s) THEN [v |-> b2 + Abs(s), ev |-> FirstEv("bound", <<Chk(BT(t), b2 + Abs(s))>>)]
   ELSE [v |-> b2, ev |-> <<>>]
-Cond(form, s, tv, lim) ==
-  IF form = "fwd" THEN (IF s < 0 THEN tv > lim ELSE tv < lim)
-  ELSE (IF s > 0 THEN tv >= lim ELSE tv <= lim)
-
 \* j-th element of the reference sequence of n elements
 RefElem(form, a, s, n, j) == IF form = "fwd" THEN a + (j - 1) * s ELSE a + (n - j) * s
 
